@@ -401,9 +401,10 @@ def gen_jpeg(rng):
         if not clean and rng.random() < 0.08:
             hdr = hdr[:rng.randrange(0, len(hdr))]
         segs.append(seg(0xDA, hdr, stuffed(rng, rng.randrange(0, 40))))
-        nrst = 0 if clean else rng.choice([0, 0, 1, 2, 3])
+        nrst = 0 if clean else rng.choice([0, 0, 1, 2, 3, 9])
+        r0 = rng.randrange(8)
         for k in range(nrst):
-            segs.append(seg(0xD0 + (k % 8), b"", stuffed(rng, rng.randrange(0, 12))))
+            segs.append(seg(0xD0 + ((k + r0) % 8), b"", stuffed(rng, rng.randrange(0, 12))))
     if clean or rng.random() < 0.92:
         segs.append(seg(0xD9))
     trailer = b""
